@@ -28,7 +28,9 @@ def _ops(regime):
         per, gaps, periodic = SLOW_P, SLOW_GAP, st.sampled_from([True, True, False])
     else:
         per, gaps, periodic = FAST_P + SLOW_P, SLOW_GAP, None
-    ctx = st.sampled_from([-1, -1, -1, -1, -1, 0, 1, 2])
+    # -1: application context; 0..NCB-1: inside the next call of that timer callback; 10..10+NCB-1: inside the next call of
+    # that subscriber callback (receive context)
+    ctx = st.sampled_from([-1, -1, -1, -1, -1, -1, 0, 1, 2, 10, 11])
     cb = st.integers(0, NCB - 1)
     gap = st.sampled_from([0.0, 0.0, gaps[1]] + gaps)
     if periodic is None:
@@ -41,7 +43,8 @@ def _ops(regime):
                                                "dur": du if du < a[0] / 2 else 0.0},
                        gap, cb, add, ctx, st.sampled_from(durs))
     op_rm = st.builds(lambda g, c, x: {"gap": g, "op": "rm", "cb": c, "ctx": x}, gap, cb, ctx)
-    op_sub = st.builds(lambda g, c, x: {"gap": g, "op": "sub", "cb": c, "ctx": x}, gap, cb, ctx)
+    sdur = st.sampled_from([0.0, 0.0, 0.0, 0.001, 0.005, 0.02])      # run time of a subscriber callback
+    op_sub = st.builds(lambda g, c, x, du: {"gap": g, "op": "sub", "cb": c, "ctx": x, "dur": du}, gap, cb, ctx, sdur)
     op_unsub = st.builds(lambda g, c, x: {"gap": g, "op": "unsub", "cb": c, "ctx": x}, gap, cb, ctx)
     op_probe = st.builds(lambda g: {"gap": g, "op": "probe"}, gap)
     rnd = st.lists(st.one_of(op_add, op_add, op_add, op_add, op_rm, op_rm, op_sub, op_unsub, op_probe),
@@ -58,7 +61,29 @@ def _ops(regime):
     p_ok = [q for q in per if regime != "mixed" or q >= 0.05]      # no fast periodic timers across multi-second gaps (cost)
     pattern = st.builds(nest, st.sampled_from(p_ok), st.booleans(), st.integers(0, NCB - 1), st.integers(0, NCB - 1), inner,
                         st.lists(st.one_of(op_add, op_rm, op_probe), max_size=4))
-    return st.one_of(rnd, rnd, pattern)
+    # structured histories around ONE delivery in flight: subscriber a (slow or not) and b (possibly twice) are registered,
+    # a message arrives, and while a's callback runs further subscribe/unsubscribe/timer operations are executed -
+    # inside that callback or from the application while the callback is still busy
+    def snest(a, b, dup, du, how, inner, tail):
+        ops = [{"gap": 0.0, "op": "sub", "cb": a, "ctx": -1, "dur": du if how == "app" else du * (how == "cb-slow")},
+               {"gap": 0.0, "op": "sub", "cb": b, "ctx": -1, "dur": 0.0}]
+        if dup:
+            ops.append({"gap": 0.0, "op": "sub", "cb": b, "ctx": -1, "dur": 0.0})
+        if how == "app":
+            ops.append({"gap": 0.01, "op": "probe"})
+            for k, o in enumerate(inner):
+                ops.append(dict(o, gap=du / 4 if k == 0 else 0.0, ctx=-1))
+        else:
+            for o in inner:
+                ops.append(dict(o, gap=0.0, ctx=10 + a))
+            ops.append({"gap": 0.01, "op": "probe"})
+        ops.append({"gap": 0.05, "op": "probe"})
+        return ops + tail
+    s_inner = st.lists(st.one_of(op_sub, op_unsub, op_unsub, op_rm, op_add), min_size=1, max_size=4)
+    spattern = st.builds(snest, st.integers(0, NCB - 1), st.integers(0, NCB - 1), st.booleans(),
+                         st.sampled_from([0.004, 0.02]), st.sampled_from(["app", "cb", "cb-slow"]), s_inner,
+                         st.lists(st.one_of(op_sub, op_unsub, op_probe, op_probe), max_size=4))
+    return st.one_of(rnd, rnd, rnd, pattern, pattern, spattern)
 
 
 def _strategy():
@@ -78,7 +103,8 @@ class C12:
     TECHNIQUE = "property-based testing: generated operation histories vs. a reference timer model (virtual time)"
     RULE = ("Hypothesis draws histories of 1..12 add_timer/remove_timer/subscribe/unsubscribe/probe operations "
             "(periods 1 ms..3 s, one-shot and periodic, duplicate registrations, issued from the application "
-            "context or from inside a timer callback, idle gaps 0..7 s, wake-up lateness and dispatch latency "
+            "context, from inside a timer callback or from inside a subscriber callback - also while a delivery to an earlier, "
+            "slow subscriber (run time 1..20 ms) is still in flight -, idle gaps 0..7 s, wake-up lateness and dispatch latency "
             "0..100 us incl. exactly 0) and runs them on a real ECU in virtual time; non-trivial = at least two "
             "registrations alive at the same instant; distinct = distinct parameter sets")
     ASSUMPTIONS = [
@@ -124,6 +150,9 @@ class C12:
         calls = []         # (t, seq, cb, reg_id)
         scalls = []        # (t, seq, cb, probe)
         pending = {i: [] for i in range(NCB)}    # ops waiting for the next call of timer cb i
+        spending = {i: [] for i in range(NCB)}   # ops waiting for the next call of subscriber cb i
+        sdur = {}          # run time of subscriber callbacks
+        sdepth = [0]
         in_cb_ops = []     # (seq, op) executed inside callbacks
         busy = []          # [start, end] of callback executions that take time
         executed = []
@@ -151,6 +180,8 @@ class C12:
                         r["rm"] = (sim.now, s2)
             elif kind == "sub":
                 subs.append({"cb": op["cb"], "seq": s, "t": sim.now, "rm": None})
+                if op.get("dur"):
+                    sdur[op["cb"]] = op["dur"]
                 ecu.subscribe(scb[op["cb"]])
                 if cur_probe[0] is not None:
                     probe_dirty.add(cur_probe[0])
@@ -192,6 +223,16 @@ class C12:
                 s = nxt()
                 pid = data[0] | (data[1] << 8) if len(data) >= 2 else None
                 scalls.append((sim.now, s, i, pid))
+                todo, spending[i] = spending[i], []
+                for op in todo:
+                    do(op, 10 + i)
+                if sdur.get(i) and sdepth[0] < 3:
+                    # the callback takes time: the receive context of the stack is busy, everything else goes on
+                    sdepth[0] += 1
+                    try:
+                        sk.FAKE_TIME.sleep(sdur[i])
+                    finally:
+                        sdepth[0] -= 1
             return cb
 
         tcb = [mk_tcb(i) for i in range(NCB)]
@@ -211,7 +252,7 @@ class C12:
             if ctx is None or ctx < 0 or op["op"] == "probe":
                 w.at(t, (lambda o: (lambda: do(o, -1)))(op))
             else:
-                w.at(t, (lambda o, c: (lambda: pending[c].append(o)))(op, ctx))
+                w.at(t, (lambda o, c: (lambda: (spending[c - 10] if c >= 10 else pending[c]).append(o)))(op, ctx))
         t_end = w.t0 + t + params["tail"]
         w.run_until(t_end)
         # let in-flight probe frames arrive
@@ -330,7 +371,7 @@ class C12:
                     break
 
         labels = [params["regime"]]
-        if any(e[4] >= 0 for e in executed):
+        if any(0 <= e[4] < 10 for e in executed):
             labels.append("op-from-timer-callback")
         if any(e[2] == "rm" for e in executed):
             labels.append("remove")
@@ -338,6 +379,10 @@ class C12:
             labels.append("self-remove")
         if any(e[2] == "unsub" for e in executed):
             labels.append("unsubscribe")
+        if any(e[4] >= 10 for e in executed):
+            labels.append("op-from-subscriber-callback")
+        if sdur and scalls:
+            labels.append("slow-subscriber")
         cbs = [r["cb"] for r in regs]
         if len(cbs) != len(set(cbs)):
             labels.append("duplicate-registration")
